@@ -44,6 +44,7 @@ import warnings
 from typing import Any, Dict, List, Optional, Sequence, Tuple
 
 from . import common as C
+from . import priv as PV          # private state of Client objects, found on the object (not by name)
 
 MSG_WAITALL = 0x100
 
@@ -285,17 +286,16 @@ class World:
         self.clock = 1000.0
         timeshim = types.SimpleNamespace(time=lambda: world.clock, perf_counter=lambda: world.clock,
                                          sleep=lambda s: None)
-        PM.socket = sockshim
-        PM.time = timeshim
-        PM.random = types.SimpleNamespace(shuffle=lambda l: None)
-        PM.select = types.SimpleNamespace(select=self.mgr_select)
-        PC.select = types.SimpleNamespace(select=self.cli_select)
+        from .rebind import rebind          # installs the stand-ins under any import style of manager.py / client.py
+        rebind(PM, {"socket": sockshim, "time": timeshim, "random": types.SimpleNamespace(shuffle=lambda l: None),
+                    "select": types.SimpleNamespace(select=self.mgr_select)})
         self.cli_log: List[bytes] = []          # every buffer a client socket accepted, in order
         self.cli_socks: List["LSock"] = []      # every socket object the client code created
-        PC.socket = types.SimpleNamespace(
+        rebind(PC, {"select": types.SimpleNamespace(select=self.cli_select), "socket": types.SimpleNamespace(
             socket=lambda *a, **k: LSock(world), AF_INET=2, SOCK_STREAM=1, IPPROTO_TCP=6, TCP_NODELAY=1,
-            SOL_SOCKET=1, SO_REUSEADDR=2, MSG_WAITALL=MSG_WAITALL, getprotobyname=lambda n: 6)
-        PC.time = types.SimpleNamespace(perf_counter=self._cli_clock, sleep=lambda s: None, time=self._cli_clock)
+            SOL_SOCKET=1, SO_REUSEADDR=2, MSG_WAITALL=MSG_WAITALL, getprotobyname=lambda n: 6),
+            "time": types.SimpleNamespace(perf_counter=self._cli_clock, sleep=lambda s: None, time=self._cli_clock,
+                                          monotonic=self._cli_clock)})
         self._cclock = 0.0
         self.mgr = PM.MessageManager(ip_address="", port=7111, timecode=False, log_level=100, send_msg_timing=False)
         self.mgr.logger_modules = OrderedSet()
@@ -372,7 +372,7 @@ class Pair:
                          cd.MT_PAUSE_SUBSCRIPTION: "pause", cd.MT_RESUME_SUBSCRIPTION: "resume"})
         self.client = self.w.PC.Client(module_id=0)
         try:
-            self.client._sock.close()
+            PV.get_sock(self.client).close()
         except Exception:
             pass
         self.pipe: Optional[Pipe] = None
@@ -383,8 +383,8 @@ class Pair:
         """what Client.connect does after the TCP connect: `_connect_helper` + `send_module_ready`"""
         c = self.client
         self.pipe = self.w.new_pipe("client")
-        c._sock = self.pipe.cli_end
-        c._connected = True
+        PV.set_sock(c, self.pipe.cli_end)
+        PV.set_connected(c, True)
         c._connect_helper(False, False, False)
         c.send_module_ready()
         self.w.pump()
@@ -397,7 +397,7 @@ class Pair:
     def reconnect_after_loss(self):
         """the connection dies (the client has seen ConnectionLost: `_connected` False, sets untouched), the
         manager reads EOF and drops the module; then the application connects again"""
-        self.client._connected = False
+        PV.set_connected(self.client, False)
         self.pipe.eof = True
         self.w.pump()
         self.connect()
@@ -445,7 +445,7 @@ class Pair:
         index = sorted(t for t, s in w.mgr.subscriptions.items() if mod is not None and mod in s)
         c = self.client
         return {"S": sorted(c.subscribed_types), "P": sorted(c.paused_subscribed_types), "D": delivered,
-                "M": msubs, "I": index, "A": int(bool(c._sub_all)), "dup": dup}
+                "M": msubs, "I": index, "A": int(PV.get_sub_all(c)), "dup": dup}
 
 
 def _ph(status: str, frames: List[str], o: Dict[str, Any]) -> str:
@@ -538,7 +538,7 @@ def _run_case(cid: str, case: Dict[str, Any]) -> List[str]:
                 fr = pr.ctl_frames_since(mark)
             lines.append(_ph(_status(EX, err), fr, pr.observe(U)))
     lines.append("END")
-    c._connected = False
+    PV.set_connected(c, False)
     return lines
 
 
@@ -782,7 +782,7 @@ class LifePair:
                 "D": sorted(t for t in set(U) if t in got),
                 "M": sorted(mod.subs) if mod is not None else [],
                 "I": sorted(t for t, s in w.mgr.subscriptions.items() if mod is not None and mod in s),
-                "A": int(bool(c._sub_all)), "C": int(bool(c.connected)), "N": int(c.module_id),
+                "A": int(PV.get_sub_all(c)), "C": int(bool(c.connected)), "N": int(c.module_id),
                 "H": sorted(m.mod_id for m in w.mgr.modules.values() if m is not mod),
                 "T": table, "X": w.mgr.next_dynamic_mod_id_offset,
                 "dup": [t for t in set(U) if got.count(t) > 1]}
@@ -962,7 +962,7 @@ def _run_life_case(cid: str, case: Dict[str, Any]) -> List[str]:
             else:
                 raise C.MachineryError(f"unknown life op {kind}")
     lines.append("END")
-    c._connected = False
+    PV.set_connected(c, False)
     return lines
 
 
